@@ -401,7 +401,25 @@ pub fn run_core(m: &[u8], cfg: &CoreCfg, ops: &[Vec<i64>], st: &mut Stats) -> Re
                         let back: DecompressorOxide = rmp_serde::from_slice(&img).expect("HARNESS: deserialise");
                         back
                     }
-                    _ => r.clone(),
+                    // the three ways std offers to copy a Clone value (a function of the script only): clone(),
+                    // clone_from() into a new object, clone_from() into one that has decoded something else
+                    _ => match (m.len() + k as usize) % 3 {
+                        0 => r.clone(),
+                        1 => {
+                            let mut d = DecompressorOxide::new();
+                            d.clone_from(&r);
+                            st.inc("fault.crash_restart_clone_from");
+                            d
+                        }
+                        _ => {
+                            let mut d = DecompressorOxide::new();
+                            let mut scratch = [0u8; 64];
+                            let _ = miniz_oxide::inflate::core::decompress(&mut d, &[0x4b, 0x4c, 0x44, 0x05], &mut scratch, 0, TINFL_FLAG_USING_NON_WRAPPING_OUTPUT_BUF | TINFL_FLAG_HAS_MORE_INPUT);
+                            d.clone_from(&r);
+                            st.inc("fault.crash_restart_clone_from");
+                            d
+                        }
+                    },
                 };
                 drop(r);
                 r = restored;
@@ -615,7 +633,26 @@ pub fn run_inflate_snap(m: &[u8], fmt: DataFormat, ops: &[Vec<i64>], finish_tail
         sink.extend_from_slice(&outbuf[..res.bytes_written]);
         consumed += res.bytes_consumed;
         if snap == Some(calls) {
-            let copy = state.clone();
+            let copy = match (m.len() + calls as usize) % 4 {
+                0 | 1 => state.clone(),
+                2 => {
+                    // clone_from() into a new state
+                    let mut d = InflateState::new_boxed(if calls % 2 == 0 { fmt } else { DataFormat::Raw });
+                    d.clone_from(&state);
+                    st.inc("fault.crash_restart_clone_from_inflate_state");
+                    d
+                }
+                _ => {
+                    // clone_from() into a state that has been used and reset
+                    let mut d = InflateState::new_boxed(fmt);
+                    let mut scratch = [0u8; 8];
+                    let _ = inflate(&mut d, &[0x78, 0x9c, 0x4b], &mut scratch, MZFlush::None);
+                    d.reset_as(miniz_oxide::inflate::stream::MinReset);
+                    d.clone_from(&state);
+                    st.inc("fault.crash_restart_clone_from_inflate_state");
+                    d
+                }
+            };
             drop(state);
             state = copy;
             st.inc("fault.crash_restart_clone_inflate_state");
